@@ -559,6 +559,14 @@ def merge_file_level(
 
         old_value, field = fields[name]
 
+        if field.metadata.get("global_only"):
+            # e.g. heading_slug_func would import and call what the document names
+            warning(
+                MystWarnings.MD_TOPMATTER,
+                f"'{name}' can only be set globally, not in the front matter",
+            )
+            continue
+
         setattr(new, name, value)
         try:
             # note, validators can store a normalised value
